@@ -74,8 +74,17 @@ def printVal : Val → Key
   | .int i => printInt i
   | .str b => b
 
-/-- Go: `pkTableEditAccumulator.getRowKey`: the printed key columns, concatenated with no separator. -/
-def getRowKey (pk : List Nat) (r : Row) : Key := pk.flatMap (fun i => printVal (r.at i))
+/-- Go: `fmt.Fprintf(&rowKey, "%d:%s,", len(s), s)`: one key part, the printed value prefixed with
+its length in bytes (`:` = 58, `,` = 44). -/
+def keyPart (s : Key) : Key := natDec s.length ++ 58 :: (s ++ [44])
+
+/-- Go: `pkTableEditAccumulator.getRowKey` (since the `fix:` commit for finding `pk_print_collision`):
+the printed key columns, each one length-prefixed. -/
+def getRowKey (pk : List Nat) (r : Row) : Key := pk.flatMap (fun i => keyPart (printVal (r.at i)))
+
+/-- `getRowKey` as it was before the repair: the printed key columns concatenated with no
+separator. Kept only to state the witness of the repaired defect (`fixed_pk_print_collision`). -/
+def getRowKeyPreFix (pk : List Nat) (r : Row) : Key := pk.flatMap (fun i => printVal (r.at i))
 
 /-- The key columns themselves (what the Spec map is keyed by). -/
 def proj (cols : List Nat) (r : Row) : List Val := cols.map (fun i => r.at i)
@@ -647,26 +656,31 @@ def specNoDup (sch : Schema) : List Row → Bool
 /-! ## Defect regions (decidable on the case; named in `known_findings/*.jsonl`) -/
 
 /-- Two rows handled by one statement have different key values whose printed concatenations
-collide (`getRowKey` has no separator). -/
-def keyCollide (sch : Schema) (r1 r2 : Row) : Bool :=
-  !sch.keyless && getRowKey sch.pk r1 == getRowKey sch.pk r2 && proj sch.pk r1 != proj sch.pk r2
+collide — under the pre-fix `getRowKey`, which had no separator. (With the repaired `getRowKey`
+no two typed rows are in this relation: `Gms.MemTable.keyInjOn_typed`.) -/
+def keyCollidePreFix (sch : Schema) (r1 r2 : Row) : Bool :=
+  !sch.keyless && getRowKeyPreFix sch.pk r1 == getRowKeyPreFix sch.pk r2 && proj sch.pk r1 != proj sch.pk r2
 
 def anyPair {α : Type} (p : α → α → Bool) : List α → Bool
   | [] => false
   | a :: as => as.any (p a) || anyPair p as
 
+/-- The rows a statement may hand to the editor. For ON DUPLICATE KEY UPDATE the row that gets
+updated can be a stored row or a row inserted earlier by the same statement, so the images are
+taken over both (string values of images of images occur in these already). -/
 def stmtRows (sch : Schema) (t : List Row) : Stmt → List Row
   | .insert _ rows => rows
   | .replace rows => rows ++ t
-  | .odku rows asg => rows ++ t ++ t.flatMap (fun o => rows.map (fun r => applyAsg asg o r))
+  | .odku rows asg => rows ++ t ++ (rows ++ t).flatMap (fun o => rows.map (fun r => applyAsg asg o r))
   | .update asg wh ord lim =>
     let src := source sch t wh ord lim
     src ++ src.map (fun o => applyAsg asg o o)
   | .delete wh ord lim => source sch t wh ord lim
 
-/-- Region `pk_print_collision`. -/
-def regionPrintCollision (sch : Schema) (t : List Row) (s : Stmt) : Bool :=
-  anyPair (keyCollide sch) (stmtRows sch t s)
+/-- The former region `pk_print_collision` (repaired; no longer named by the drivers): the value
+class on which the pre-fix code failed. -/
+def regionPrintCollisionPreFix (sch : Schema) (t : List Row) (s : Stmt) : Bool :=
+  anyPair (keyCollidePreFix sch) (stmtRows sch t s)
 
 /-- Region `ci_collation_key`: a key column has a case-insensitive collation and the statement or
 the table holds two strings in it that differ only by case. -/
